@@ -115,6 +115,35 @@ def shard_periods(item, res, ctx):
                     bad("tile_start", "%r vs %r" % (a, fd))
                 if b != (ld.year, ld.month, ld.day):
                     bad("tile_end", "%r vs %r" % (b, ld))
+            # inverse of the tiling (round-7 seed C09_k): every calendar date inside the tile - first, middle and last
+            # day of each month it covers - creates this very period through each date-based constructor, and the
+            # daily period of that date converts to it
+            if freq != C.I:
+                try:
+                    days, d0 = [], fd
+                    while d0 <= ld:
+                        nxt = dt.date(d0.year + (d0.month == 12), d0.month % 12 + 1, 1)
+                        days += [d0, nxt - dt.timedelta(days=1)] + ([d0.replace(day=15)] if freq != C.D else [])
+                        d0 = nxt
+                    for d in (days if freq != C.D else [fd]):
+                        res.ev()
+                        made = (D.Period.from_ymd(FREQ[freq], d.year, d.month, d.day),
+                                D.Period.from_iso_string(d.isoformat(), frequency=FREQ[freq]),
+                                D.Period.from_python_date(d, frequency=FREQ[freq]),
+                                D.dd(d.year, d.month, d.day).refrequent(FREQ[freq]))
+                        if any(type(g) is not CLS[freq] or g != p for g in made):
+                            bad("date_to_period", "%s -> %r" % (d.isoformat(), made), month=d.month)
+                            break
+                    # the period converted to any lower regular frequency is the one whose tile contains it
+                    for lf in (C.Y, C.H, C.Q, C.M):
+                        if freq == C.D or lf < freq:
+                            for pos, d in (("start", fd), ("end", ld)):
+                                g = p.refrequent(FREQ[lf], position=pos) if freq != C.D else p.refrequent(FREQ[lf])
+                                want = mk(lf, C.ordinal(lf, d.year, (d.month - 1) // (12 // lf) + 1))
+                                if type(g) is not CLS[lf] or g != want:
+                                    bad("refrequent", "%s %s -> %r expected %r" % (C.NAMES[lf], pos, g, want), to=C.NAMES[lf])
+                except Exception as e:
+                    bad("date_to_period", "%s: %s" % (type(e).__name__, e), error=type(e).__name__)
             # order, equality, hash against the neighbour
             if prev is not None:
                 ok = (prev + 1 == p and p - 1 == prev and p - prev == 1 and prev - p == -1 and prev < p and p > prev
